@@ -113,7 +113,7 @@ def brute_mindist(matrix, fa, fb, rng=2):
     return np.sqrt((c ** 2).sum(-1)).min(-1)
 
 
-def make_transitions(states, inner_states=None, n_sites=None, labels=None, seed=0, sheared=False):
+def make_transitions(states, inner_states=None, n_sites=None, labels=None, seed=0, sheared=False, site_lattice_scale=None):
     """Wrap state histories into a real gemdat.Transitions via its public constructor (real event builder)."""
     from pymatgen.core import Element, Lattice, Structure
 
@@ -132,7 +132,10 @@ def make_transitions(states, inner_states=None, n_sites=None, labels=None, seed=
     else:
         lat = Lattice.cubic(3.0 * n_sites)
         pos = np.array([[(k + 0.5) / n_sites, 0.5, 0.5] for k in range(n_sites)])
-    sites = Structure(lat, ['Li'] * n_sites, pos, labels=labels)
+    # the site structure may come from a reference cell slightly different from the simulation cell (e.g. a thermally expanded MD cell):
+    # distances are those of the simulation cell (the trajectory's lattice)
+    site_lat = lat if site_lattice_scale is None else Lattice(lat.matrix * site_lattice_scale)
+    sites = Structure(site_lat, ['Li'] * n_sites, pos, labels=labels)
     coords = np.zeros((T, N, 3))
     rng = np.random.default_rng(seed + 17)
     for t in range(T):
